@@ -5,6 +5,7 @@ import (
 	"encoding/binary"
 	"math/rand"
 	"runtime"
+	"strconv"
 	"sync"
 
 	"github.com/theQRL/go-qrllib/common"
@@ -22,6 +23,7 @@ type keyEvent struct {
 	Pk       []int   `json:"pk"`
 	Leaves   [][]int `json:"leaves"`
 	Complete []int   `json:"complete"`
+	Plan     int     `json:"plan"`
 }
 
 type sigEvent struct {
@@ -34,10 +36,12 @@ type sigEvent struct {
 	Idx     int     `json:"idx"`
 	Msg     []int   `json:"msg"`
 	Sig     []int   `json:"sig"`
+	Plan    int     `json:"plan"`
 }
 
 type sameEvent struct {
 	Ev            string `json:"ev"`
+	Plan          int    `json:"plan"`
 	Same16        bool   `json:"same16"`
 	Deterministic bool   `json:"deterministic"`
 	Verifies      bool   `json:"verifies"`
@@ -53,19 +57,27 @@ type hrow struct {
 
 func c06(r *rand.Rand, tier string, vseed int, tr *trace.Buf, tablePath string, extra map[string]interface{}) {
 	tab := oracle.NewTable()
+	totalRows := 0
 	audited, failed := 0, 0
 	var cur []hrow
 	xmss.VerifHashHook = func(hf xmss.HashFunction, typeValue uint32, buf, out []uint8) {
 		cur = append(cur, hrow{alg: int(hf), buf: append([]byte{}, buf...), out: append([]byte{}, out[:32]...)})
 	}
-	type plan struct{ h, hf int }
+	type plan struct {
+		h, hf int
+		seam  bool // synthetic leaves except the complete ones (leaf hook): tall trees whose node indices exceed 4095
+	}
 	var plans []plan
 	if tier == "quick" {
-		plans = []plan{{4, vseed % 3}, {10, (vseed + 1) % 3}}
+		plans = []plan{{4, vseed % 3, false}, {10, (vseed + 1) % 3, false}, {14, (vseed + 2) % 3, true}}
 	} else {
-		plans = []plan{{4, 0}, {4, 1}, {4, 2}, {6, (vseed + 1) % 3}, {8, (vseed + 2) % 3}, {10, vseed % 3}}
+		plans = []plan{{4, 0, false}, {4, 1, false}, {4, 2, false}, {6, (vseed + 1) % 3, false}, {8, (vseed + 2) % 3, false}, {10, vseed % 3, false},
+			{14, (vseed + 1) % 3, true}, {14, (vseed + 2) % 3, true}}
 	}
-	for _, pl := range plans {
+	msgLens := []int{0, 1, 31, 32, 33, 64, 4095, 4096, 4097, 10000}
+	msgNo := vseed
+	for pi, pl := range plans {
+		tab = oracle.NewTable() // one table per key: a validating TLC process loads only what its events need
 		var seed [48]uint8
 		r.Read(seed[:])
 		n := 1 << uint(pl.h)
@@ -88,7 +100,24 @@ func c06(r *rand.Rand, tier string, vseed int, tr *trace.Buf, tablePath string, 
 		if tall { // millions of calls: key generation is not recorded, the needed rows are produced below
 			xmss.VerifHashHook = nil
 			complete = []int{1 + r.Intn(n-1)}
+			if pl.seam {
+				complete = []int{4096 + r.Intn(n-4096)} // an L-tree / OTS address word above 4095
+			}
 			isComplete = map[uint32]bool{uint32(complete[0]): true}
+		}
+		xmss.VerifLeafHook = nil
+		if pl.seam {
+			realLeaf := uint32(complete[0])
+			xmss.VerifLeafHook = func(hf xmss.HashFunction, leaf []uint8, idx uint32) bool {
+				if idx == realLeaf {
+					return false
+				}
+				b := []byte{byte(idx), byte(idx >> 8), byte(idx >> 16), 0x77, byte(hf)}
+				for i := range leaf {
+					leaf[i] = b[i%5] ^ byte(i*29)
+				}
+				return true
+			}
 		}
 		x := xmss.NewXMSSFromSeed(seed, uint8(pl.h), xmss.HashFunction(pl.hf), common.SHA256_2X)
 		keygenRows := cur
@@ -162,7 +191,7 @@ func c06(r *rand.Rand, tier string, vseed int, tr *trace.Buf, tablePath string, 
 			keep(cur, true)
 			cur = nil
 		}
-		tr.Emit(keyEvent{Ev: "key", Hf: pl.hf, H: pl.h, Seed: ints(seed[:]), Pk: ints(pk[:]), Leaves: leaves, Complete: complete})
+		tr.Emit(keyEvent{Ev: "key", Hf: pl.hf, H: pl.h, Seed: ints(seed[:]), Pk: ints(pk[:]), Leaves: leaves, Complete: complete, Plan: pi})
 		keyLine := tr.N
 		// signatures at seeded indices (first, one reached by signing, one reached by a jump, last)
 		idxs := []int{0, 1, 2 + r.Intn(n-3), n - 1}
@@ -175,10 +204,17 @@ func c06(r *rand.Rand, tier string, vseed int, tr *trace.Buf, tablePath string, 
 			idxs = []int{[]int{0, 1}[r.Intn(2)], 2 + r.Intn(n-2)}
 		}
 		if tall {
-			idxs = []int{255 + r.Intn(2), 256 + r.Intn(n-257), n - 1}
+			if n > 257 {
+				idxs = []int{255 + r.Intn(2), 256 + r.Intn(n-257), n - 1}
+			} else {
+				idxs = []int{1 + r.Intn(n/2), n/2 + r.Intn(n/2-1), n - 1}
+			}
 			if tier == "quick" {
 				idxs = idxs[1:2]
 			}
+		}
+		if pl.seam {
+			idxs = []int{complete[0]} // the one leaf that is real
 		}
 		for _, i := range idxs {
 			if uint32(i) < x.GetIndex() {
@@ -188,7 +224,8 @@ func c06(r *rand.Rand, tier string, vseed int, tr *trace.Buf, tablePath string, 
 			xmss.VerifHashHook = nil // the fast-forward makes millions of hash calls the specification never looks up
 			x.SetIndex(uint32(i))
 			xmss.VerifHashHook = hook
-			msg := make([]byte, r.Intn(70))
+			msg := make([]byte, msgLens[msgNo%len(msgLens)])
+			msgNo++
 			r.Read(msg)
 			cur = nil
 			sig, err := x.Sign(msg)
@@ -196,7 +233,7 @@ func c06(r *rand.Rand, tier string, vseed int, tr *trace.Buf, tablePath string, 
 				continue
 			}
 			keep(cur, true)
-			tr.Emit(sigEvent{Ev: "sig", KeyLine: keyLine, Hf: pl.hf, H: pl.h, Seed: ints(seed[:]), Leaves: leaves, Idx: i, Msg: ints(msg), Sig: ints(sig)})
+			tr.Emit(sigEvent{Ev: "sig", KeyLine: keyLine, Hf: pl.hf, H: pl.h, Seed: ints(seed[:]), Leaves: leaves, Idx: i, Msg: ints(msg), Sig: ints(sig), Plan: pi})
 			// entry-point agreement and determinism of an independent second construction
 			xmss.VerifHashHook = nil
 			sig2, pk2, a2 := sig, pk, x.GetAddress()
@@ -211,12 +248,15 @@ func c06(r *rand.Rand, tier string, vseed int, tr *trace.Buf, tablePath string, 
 			a1 := x.GetAddress()
 			v1 := xmss.Verify(msg, sig, pk)
 			v2 := xmss.VerifyWithCustomWOTSParamW(msg, sig, pk, 16)
-			tr.Emit(sameEvent{Ev: "same", Same16: v1 == v2, Deterministic: bytes.Equal(sig, sig2) && pk == pk2 && a1 == a2, Verifies: v1})
+			tr.Emit(sameEvent{Ev: "same", Plan: pi, Same16: v1 == v2, Deterministic: bytes.Equal(sig, sig2) && pk == pk2 && a1 == a2, Verifies: v1})
 		}
+		trace.WriteJSONCompact(tablePath+".p"+strconv.Itoa(pi), tab)
+		totalRows += tab.Rows
 	}
 	xmss.VerifHashHook = nil
-	trace.WriteJSONCompact(tablePath, tab)
-	extra["table_rows"] = tab.Rows
+	xmss.VerifLeafHook = nil
+	trace.WriteJSONCompact(tablePath, oracle.NewTable())
+	extra["table_rows"] = totalRows
 	extra["rows_audited"] = audited
 	extra["rows_failing_audit"] = failed
 }
